@@ -12,6 +12,19 @@ Contracts (from the property statement):
  F renumbering - str(~r) is the same after one random permutation of the atom numbers applied to every molecule, and after
                re-ordering the molecules inside the roles
  G tokens    - distinct dynamic labels (order, p_order) / (charge, p_charge, radical, p_radical) give distinct CGR strings
+
+Audit extension (same contracts, wider domain - see AUDIT notes at the end of bounded()):
+ A  also for molecules numbered 1..n each (overlapping numbers, the usual result of separate smiles() calls), numbers > 999, combined
+    specs; r.copy(); ties of the role sort key (molecules whose bare SMILES agree but whose radical atoms differ)
+ B  also for the written forms 'm' 'h' 'A' 'a' 'mh' and '!c' (order inside the roles kept exactly) and for the reader options
+    ignore=False, remap=True, keep_implicit=True, ignore_aromatic_radicals=False, ignore_stereo=True (stereo-free comparison);
+    'm' restores the atom numbers
+ C  also one-sided reactions (no reactants / no products / reagents only): nothing dynamic, E holds with an empty side
+ D/E also ring bonds, edits that share an atom (bond + charge / radical on the same atom), metal ions changing a multiple charge,
+    isotope labelled and explicit-hydrogen molecules, one side in Kekule and the other in aromatic form (dynamic aromatic bonds);
+    every CGR atom keeps element and isotope of its atom
+ F  also through the reader: smiles(format(r, 'm')) has the same condensed graph string, with remap=True as well (a consistent
+    renumbering of both sides made by the library itself)
 """
 import itertools
 
@@ -23,7 +36,12 @@ RULE = ('non-trivial = reaction with >= 2 molecules in some role (order contract
 
 SPECIALS = ['[Na+].[Cl-]', 'CC(=O)[O-].[K+]', '[NH4+].[Cl-]', 'C[N+](C)(C)C.[Br-]', '[Li+].CC[O-]', '[CH3] |^1:0|', 'C[CH]C |^1:1|',
             'CC[O] |^1:2|', '[OH] |^1:0|', 'CC(C)[CH2] |^1:3|', 'O', 'Cl', 'CO', 'CC(=O)O', 'C', 'N', '[H][H]', 'O=C=O',
-            'C[C@H](N)C(=O)O', 'C/C=C/C', 'F[C@](Cl)(Br)I', 'C[C@H]1CC[C@@H](C)CC1', '[Na+].[Na+].[O-]S([O-])(=O)=O', 'c1ccccc1', 'CC(C)=O']
+            'C[C@H](N)C(=O)O', 'C/C=C/C', 'F[C@](Cl)(Br)I', 'C[C@H]1CC[C@@H](C)CC1', '[Na+].[Na+].[O-]S([O-])(=O)=O', 'c1ccccc1', 'CC(C)=O',
+            # audit: isotopes, multiply charged metal ions, explicit hydrogens, charge separated groups, aromatic hetero atoms with / without H
+            '[2H]O[2H]', 'C[13CH2]O', '[13CH4]', 'CC(=[18O])O', '[Fe+2].[Cl-].[Cl-]', '[Cu+]', '[Zn+2]', '[Fe+3]', '[H]C([H])([H])O',
+            'C[N+](=O)[O-]', 'c1ccncc1', 'c1cc[nH]c1', '[O-][n+]1ccccc1', 'Cc1ccccc1Br', 'OC1CCCCC1', 'C1CC=CCC1', '[Pd]', '[Li]CCCC']
+METALS = {'Fe': (2, 3), 'Cu': (1, 2), 'Zn': (2,), 'Pd': (0, 2), 'Li': (), 'Na': (), 'K': ()}
+TIES = [('[Na]', '[Na] |^1:0|'), ('[Li]', '[Li] |^1:0|'), ('[K]', '[K] |^1:0|')]     # equal bare SMILES, different radical state
 
 _POOL = None
 _CGR_STR = True     # set by bounded(): False when str(cgr) raises for a trivial CGR (reported once; string contracts are then skipped)
@@ -66,8 +84,9 @@ def _pick(r):
     return m
 
 
-def _renumber_seq(ms, r, start=1):
-    """distinct atom numbers over all molecules (random order inside each molecule)"""
+def _renumber_seq(ms, r, start=1, overlap=False):
+    """distinct atom numbers over all molecules (random order inside each molecule); overlap=True: every molecule numbered from
+    `start` on its own (what separate smiles() calls give)"""
     out, k = [], start
     for m in ms:
         nums = list(m)
@@ -75,9 +94,15 @@ def _renumber_seq(ms, r, start=1):
         r.shuffle(tgt)
         c = m.copy()
         c.remap(dict(zip(nums, tgt)))
-        k += len(nums) + r.randrange(0, 3)
+        if not overlap:
+            k += len(nums) + r.randrange(0, 3)
         out.append(c)
     return out
+
+
+def _start(r):
+    """first atom number: mostly 1, sometimes across the 3 -> 4 digit border, sometimes across the 4 -> 5 digit border"""
+    return r.choice((1, 1, 1, 1, 7, 990, 1000, 4090, 9990))
 
 
 class _Out:
@@ -115,16 +140,102 @@ def _witness(rx):
 
 
 # ---- A + B -------------------------------------------------------------------------------------------------------------------------
+RT_SPECS = ('m', 'h', 'A', 'a', 'mh', '!c', 'm!c')                       # written forms that keep the whole molecule (besides '')
+RT_OPTS = ({'ignore': False}, {'remap': True}, {'keep_implicit': True}, {'ignore_aromatic_radicals': False}, {'ignore_stereo': True})
+
+
+def _roles(rx):
+    return rx.reactants, rx.reagents, rx.products
+
+
+def _bare(m, spec=''):
+    """the sort key ReactionContainer.__format__ uses for m: its SMILES without the CX block"""
+    return m.__format__(spec, _return_order=True)[0]
+
+
+def _radical_tie(rx, specs):
+    """independent predicate for the finding family order:radical-tie - some role holds two molecules whose bare SMILES (the role
+    sort key) agree under one of the specs while the positions of their radical atoms in that SMILES differ"""
+    for role in _roles(rx):
+        for sp in specs:
+            seen = {}
+            for m in role:
+                s, o = m.__format__(sp, _return_order=True)
+                rad = tuple(i for i, n in enumerate(o) if m.atom(n).is_radical)
+                if seen.setdefault(s, rad) != rad:
+                    return True
+    return False
+
+
+def _big_numbers(rx):
+    return any(n > 9999 for m in rx.molecules() for n in m)
+
+
+def _describe(rx, stereo=True, ordered=False):
+    """what a re-read reaction has to restore: per role the canonical strings, component counts and radical counts of its molecules"""
+    sp = '' if stereo else '!s'
+    d = [[(format(m, sp), m.connected_components_count, sum(a.is_radical for _, a in m.atoms())) for m in role] for role in _roles(rx)]
+    return d if ordered else [sorted(x) for x in d]
+
+
+def _roundtrip(rx, s0, spec, kw, gap, unique_numbers, out):
+    """B for one written form and one set of reader options"""
+    from chython import smiles, ReactionContainer as RC
+    from bounded import domains as D
+    tag = 'roundtrip' if not spec and not kw else f'roundtrip[{spec}|{",".join(f"{k}={v}" for k, v in kw.items())}]'
+    text = format(rx, spec) if spec else s0
+    wit = {**_witness(rx), 'written': text, 'spec': spec, 'reader_options': kw}
+    out.case(1, key=(tag, s0), sample={'contract': 'round trip' if tag == 'roundtrip' else 'round trip, other forms / reader options',
+                                       'reaction': s0, 'written': text, 'options': kw})
+    try:
+        back = smiles(text, **kw)
+    except Exception as e:
+        # finding family decided on the input alone: the m form of a reaction with an atom number of more than 4 digits
+        key = 'roundtrip-m:atom-number>9999' if 'm' in spec and _big_numbers(rx) else f'{tag}-raises:{s0}'
+        out.v(key, f'smiles({text!r}, {kw}) raises {type(e).__name__}: {e}', witness=wit, native=repr(e))
+        return
+    if not isinstance(back, RC):
+        out.v(f'{tag}:{s0}', f'smiles({text!r}) is not a reaction: {type(back).__name__}', witness=wit, native=str(back))
+        return
+    numbers = None
+    if 'm' in spec and 'remap' not in kw and unique_numbers:
+        numbers = ([sorted(tuple(sorted(m)) for m in role) for role in _roles(rx)], [sorted(tuple(sorted(m)) for m in role) for role in _roles(back)])
+    try:
+        for m in back.molecules():
+            D.norm(m)
+    except Exception as e:   # the original molecules were normalised without error: the re-read ones are not the same molecules
+        out.v(f'{tag}:{s0}', f'molecules re-read from {text!r} cannot be normalised ({type(e).__name__}: {e}): -> {back}', witness=wit,
+              native={'str_back': str(back), 'error': repr(e)})
+        return
+    back.flush_cache(keep_molecule_cache=True)
+    stereo = not kw.get('ignore_stereo')
+    ordered = '!c' in spec
+    exp, got = _describe(rx, stereo, ordered), _describe(back, stereo, ordered)
+    bad = exp != got or (stereo and str(back) != s0)
+    if bad:
+        lossless = [[x[1:] for x in role] for role in exp] == [[x[1:] for x in role] for role in got]
+        if gap and (lossless if ordered else [sorted(x[1:] for x in role) for role in exp] == [sorted(x[1:] for x in role) for role in got]):
+            out.gaps += 1     # only canonical strings of gap molecules may differ
+        else:
+            out.v(f'{tag}:{s0}', f'smiles({text!r}, {kw}) does not restore the roles / molecules of {s0}: got {back}', witness=wit,
+                  native={'expected_roles (string, components, radicals)': exp, 'got_roles': got, 'str_back': str(back)})
+            return
+    if numbers is not None and numbers[0] != numbers[1]:
+        out.v(f'{tag}-numbers:{s0}', f'smiles({text!r}) does not restore the atom numbers written with the m form', witness=wit,
+              native={'expected': numbers[0], 'got': numbers[1]})
+
+
 def _order_and_roundtrip(i, r, out):
     from chython import ReactionContainer, smiles
     from bounded import domains as D
     from oracles import o01_gaps
     sizes = r.choice([(1, 0, 1), (2, 0, 1), (2, 1, 2), (0, 0, 2), (3, 0, 0), (1, 2, 1), (2, 0, 3), (3, 3, 3), (0, 2, 0), (1, 0, 0), (3, 1, 2),
-                      (1, 3, 1), (2, 2, 2), (0, 1, 1)])
+                      (1, 3, 1), (2, 2, 2), (0, 1, 1), (0, 0, 1), (0, 3, 0), (0, 1, 0), (0, 2, 3), (3, 2, 0)])
     ms = [_pick(r) for _ in range(sum(sizes))]
     if len(ms) > 1 and r.random() < .35:           # duplicates inside / across roles
         ms[r.randrange(len(ms))] = ms[r.randrange(len(ms))].copy()
-    ms = _renumber_seq(ms, r)
+    overlap = r.random() < .3                      # audit: every molecule numbered from the same start (numbers shared between molecules)
+    ms = _renumber_seq(ms, r, start=_start(r), overlap=overlap)
     nr, ng, np_ = sizes
     R, G, P = ms[:nr], ms[nr:nr + ng], ms[nr + ng:]
     rx = ReactionContainer(R, P, G)
@@ -134,7 +245,7 @@ def _order_and_roundtrip(i, r, out):
     combos = list(itertools.product(itertools.permutations(R), itertools.permutations(G), itertools.permutations(P)))
     if len(combos) > 36:
         combos = [combos[0]] + r.sample(combos[1:], 35)
-    specs = ('', 'm', 'h', 'A', '!s', 'a', '!x', '!z', '!b')
+    specs = ('', 'm', 'h', 'A', '!s', 'a', '!x', '!z', '!b', 'ahm', 'A!s!z')
     ref = {sp: format(rx, sp) for sp in specs}
     for R2, G2, P2 in combos:
         r2 = ReactionContainer(R2, P2, G2)
@@ -142,43 +253,59 @@ def _order_and_roundtrip(i, r, out):
                  sample={'contract': 'order inside roles', 'reaction': s0, 'roles': list(sizes)} if multi else None)
         bad = [sp for sp in specs if format(r2, sp) != ref[sp]]
         if str(r2) != s0 or bad or not (r2 == rx) or hash(r2) != hash(rx):
-            out.v(f'order:{s0}', f'reaction string depends on the order of molecules inside a role (specs {bad or ["str/==/hash"]}): {s0} vs {r2}',
+            key = 'order:radical-tie' if _radical_tie(rx, bad or ['']) else f'order:{s0}'
+            out.v(key, f'reaction string depends on the order of molecules inside a role (specs {bad or ["str/==/hash"]}): {s0} vs {r2}',
                   witness={**_witness(rx), 'permuted_roles': [[format(m, 'm') for m in role] for role in (R2, G2, P2)]},
                   native={'original': s0, 'permuted': str(r2), 'specs': bad})
             break
-    # B: round trip
+    # copy keeps roles and molecules
+    cp = rx.copy()
+    out.case(1)
+    if str(cp) != s0 or [len(x) for x in _roles(cp)] != list((nr, ng, np_)) or format(cp, 'm') != ref['m'] or any(
+            x is y for x, y in zip(cp.molecules(), rx.molecules())):
+        out.v(f'copy:{s0}', f'r.copy() is not the same reaction as r (or shares molecule objects): {cp} vs {s0}', witness=_witness(rx),
+              native={'copy': format(cp, 'm'), 'original': ref['m']})
+    # B: round trip - str(r) with default reader options; every other lossless written form with default options; every non-default
+    #    reader option with one written form (seeded)
     gap = any(any(o01_gaps.gaps(m)) for m in ms)
-    try:
-        back = smiles(s0)
-    except Exception as e:
-        out.case(1, key=('roundtrip', s0))
-        out.v(f'roundtrip-raises:{s0}', f'smiles(str(r)) raises {type(e).__name__}: {e}', witness=_witness(rx), native=repr(e))
-        return
-    from chython import ReactionContainer as RC
-    if not isinstance(back, RC):
-        out.v(f'roundtrip:{s0}', f'smiles(str(r)) is not a reaction: {type(back).__name__}', witness=_witness(rx), native=str(back))
-        return
-    try:
-        for m in back.molecules():
-            D.norm(m)
-    except Exception as e:   # the original molecules were normalised without error: the re-read ones are not the same molecules
-        out.case(1, key=('roundtrip', s0))
-        out.v(f'roundtrip:{s0}', f'molecules re-read from str(r) cannot be normalised ({type(e).__name__}: {e}): {s0} -> {back}', witness=_witness(rx),
-              native={'str_back': str(back), 'error': repr(e)})
-        return
-    back.flush_cache(keep_molecule_cache=True)
-    out.case(1, key=('roundtrip', s0), sample={'contract': 'round trip', 'reaction': s0})
-    exp, got = _role_strings(rx), _role_strings(back)
-    cc_exp = [sorted(m.connected_components_count for m in role) for role in (rx.reactants, rx.reagents, rx.products)]
-    cc_got = [sorted(m.connected_components_count for m in role) for role in (back.reactants, back.reagents, back.products)]
-    rad_exp = [sorted(sum(a.is_radical for _, a in m.atoms()) for m in role) for role in (rx.reactants, rx.reagents, rx.products)]
-    rad_got = [sorted(sum(a.is_radical for _, a in m.atoms()) for m in role) for role in (back.reactants, back.reagents, back.products)]
-    if exp != got or cc_exp != cc_got or rad_exp != rad_got or str(back) != s0:
-        if gap and cc_exp == cc_got and rad_exp == rad_got and [len(x) for x in exp] == [len(x) for x in got]:
-            out.gaps += 1     # only canonical strings of gap molecules may differ
-        else:
-            out.v(f'roundtrip:{s0}', f'smiles(str(r)) does not restore the roles / molecules of {s0}: got {back}', witness=_witness(rx),
-                  native={'expected_roles': exp, 'got_roles': got, 'components': [cc_exp, cc_got], 'radicals': [rad_exp, rad_got], 'str_back': str(back)})
+    if multi:         # '!c' is only interesting for an order that is not the sorted one: take a seeded permuted reaction
+        R2, G2, P2 = r.choice(combos)
+        rk = ReactionContainer(R2, P2, G2)
+    else:
+        rk = rx
+    _roundtrip(rx, s0, '', {}, gap, not overlap, out)
+    for sp in RT_SPECS:
+        _roundtrip(rk if '!c' in sp else rx, s0, sp, {}, gap, not overlap, out)
+    for kw in RT_OPTS:
+        sp = r.choice(('',) + RT_SPECS)
+        if 'ignore_aromatic_radicals' in kw and ('h' in sp or 'm' in sp):
+            sp = ''        # a bracketed [c] / [n] without H IS a radical under this option (documented): forms that bracket every atom are out
+        if 'ignore' in kw and 'm' in sp and overlap:
+            sp = ''        # strict reading rejects atom numbers used twice in a role (documented MappingError)
+        if 'ignore' in kw and 'a' in sp:
+            sp = ''        # strict reading wants the bond symbol at both ends of a ring closure ("not equal cycle bonds"), the a form has one
+        _roundtrip(rk if '!c' in sp else rx, s0, sp, kw, gap, not overlap, out)
+
+
+def _ties(run):
+    """A on the ties of the role sort key: two molecules with the same bare SMILES and different radical atoms in one role"""
+    from chython import ReactionContainer, smiles
+    for a, b in TIES:
+        x, y = smiles(a), smiles(b)
+        other = smiles('CCO')
+        for role in range(3):
+            def mk(p, q):
+                roles = [[other], [], [other.copy()]]
+                roles[role] = [p, q] + roles[role]
+                return ReactionContainer(roles[0], roles[2], roles[1])
+            r1, r2 = mk(x, y), mk(y, x)
+            run.case(1, key=('order-tie', a, role))
+            if str(r1) != str(r2) or r1 != r2:
+                assert _radical_tie(r1, ['']), 'harness: TIES entry is not a tie of the sort key'
+                run.violation('order:radical-tie', f'reaction string depends on the order of molecules inside a role: {r1} vs {r2} '
+                              f'(role sort key is the SMILES without the CX radical block, so {a!r} and {b!r} tie)',
+                              witness={'roles': [[format(m, 'm') for m in rl] for rl in _roles(r1)], 'reaction_with_numbers': format(r1, 'm'),
+                                       'swapped': format(r2, 'm')}, native={'original': str(r1), 'permuted': str(r2)})
 
 
 # ---- C .. F ------------------------------------------------------------------------------------------------------------------------
@@ -187,7 +314,7 @@ def _edits(u, r, k, next_num):
     atoms, bonds = u._atoms, u._bonds
     cand = []
     for n, m, b in u.bonds():
-        if not b.in_ring and b.order in (1, 2, 3):
+        if b.order in (1, 2, 3) and (not b.in_ring or (atoms[n].hybridization != 4 and atoms[m].hybridization != 4)):   # audit: ring bonds too
             cand.append(('del_bond', (n, m), b.order))
             if b.order == 1 and atoms[n].hybridization == 1 and atoms[m].hybridization == 1 and (atoms[n].implicit_hydrogens or 0) >= 1 \
                     and (atoms[m].implicit_hydrogens or 0) >= 1:
@@ -208,6 +335,8 @@ def _edits(u, r, k, next_num):
                 cand.append(('charge', (n,), -1))
             elif a.atomic_symbol == 'C' and (a.implicit_hydrogens or 0) >= 1 and a.hybridization == 1:
                 cand.append(('radical', (n,), True))
+        elif a.charge and not a.is_radical and not bonds[n] and a.atomic_symbol in METALS and [c for c in METALS[a.atomic_symbol] if c != a.charge]:
+            cand.append(('charge', (n,), r.choice([c for c in METALS[a.atomic_symbol] if c != a.charge])))   # audit: +2 -> +3, + -> +2
         elif a.charge and not a.is_radical and len(bonds[n]) <= 1:
             cand.append(('charge', (n,), 0))
         elif a.is_radical and not a.charge:
@@ -224,16 +353,24 @@ def _edits(u, r, k, next_num):
     kinds = list(byk)
     r.shuffle(kinds)
     chosen, used = [], set()
+    share = r.random() < .35       # audit: a charge / radical edit may sit on an atom of an edited bond (heterolysis, homolysis)
+    used_atom, used_bond, used_gone = set(), set(), set()
     for kind in kinds * 3:
         if len(chosen) >= k:
             break
         for c in byk[kind]:
-            if used.isdisjoint(c[1]):
+            level = used_atom if c[0] in ('charge', 'radical') else used_bond if c[0] in ('del_bond', 'add_bond', 'order') else used_gone
+            if share and level is not used_gone:
+                free = level.isdisjoint(c[1]) and used_gone.isdisjoint(c[1])
+            else:
+                free = used.isdisjoint(c[1])
+            if free:
                 if c[0] == 'add_atom':
                     c = (c[0], (c[1][0], next_num), c[2])
                     next_num += 1
                 chosen.append(c)
                 used.update(c[1])
+                level.update(c[1])
                 byk[kind].remove(c) if c in byk[kind] else None
                 break
     return chosen
@@ -258,6 +395,10 @@ def _apply(p, edits):
             elif kind == 'add_atom':
                 p.add_atom(arg, at[1])
                 p.add_bond(at[0], at[1], 1)
+    for kind, at, arg in edits:      # the attribute setters keep the old hydrogen count: recalculate it as a user would (None = invalid valence)
+        if kind in ('charge', 'radical'):
+            p.calc_implicit(at[0])
+    p.flush_cache()
 
 
 def _s(cgr):
@@ -290,6 +431,10 @@ def _check_cgr(cgr, left, right, tag, s0, wit, out, expected_centre=None):
             bad.append(('bond-orders', sorted(e), gb[e], eb[e]))
         if (e in dyn_b) != (eb[e][0] != eb[e][1]):
             bad.append(('bond-is_dynamic', sorted(e), e in dyn_b, eb[e]))
+    for n, a in cgr.atoms():        # audit: the CGR atom is the atom of its side(s): element and isotope kept
+        src = left[0].get(n) or right[0].get(n)
+        if src is not None and (a.atomic_symbol, a.isotope) != src[:2]:
+            bad.append(('atom-identity', n, (a.atomic_symbol, a.isotope), src[:2]))
     if centre != ec:
         bad.append(('center_atoms-vs-diff', sorted(centre), sorted(ec)))
     if len(cgr.center_atoms) != len(centre):
@@ -310,7 +455,7 @@ def _cgr_contracts(i, r, out):
     from functools import reduce
     from operator import or_
     nr = r.choice((1, 1, 2, 2, 3))
-    ms = _renumber_seq([_pick(r) for _ in range(nr + 1)], r)
+    ms = _renumber_seq([_pick(r) for _ in range(nr + 1)], r, start=_start(r))
     R, G = ms[:nr], (ms[nr:] if r.random() < .4 else [])
     # C: identical sides
     same = ReactionContainer(R, [m.copy() for m in R], G)
@@ -326,6 +471,23 @@ def _cgr_contracts(i, r, out):
     if c0.center_atoms != () or (_CGR_STR and str(c0) != str(~ReactionContainer([m0], [m0.copy()]))):
         out.v(f'self-centre-xor:{m0}', f'm ^ m.copy() has centre {c0.center_atoms} or differs from ~(m>>m)', witness={'molecule': format(m0, 'm')},
               native={'center_atoms': list(c0.center_atoms), 'cgr': str(c0)})
+
+    # C/E, audit: one-sided reactions (empty reactant side / empty product side / reagents only) - nothing is dynamic
+    shape = r.choice(('no-products', 'no-reactants', 'reagents-only', 'reagents+products'))
+    one = {'no-products': ReactionContainer(R, [], G), 'no-reactants': ReactionContainer([], R, []), 'reagents-only': ReactionContainer([], [], R),
+           'reagents+products': ReactionContainer([], G, R)}[shape]
+    so = str(one)
+    out.case(1, key=('one-sided', shape, so), sample={'contract': 'one-sided reaction has no centre', 'reaction': so})
+    wo = {**_witness(one), 'shape': shape}
+    try:
+        co = ~one
+    except Exception as e:
+        co = None
+        out.v(f'compose-raises:{so}', f'~r raises {type(e).__name__}: {e}', witness=wo, native=repr(e))
+    if co is not None:
+        lo, ro = O.side_view(list(one.reagents) + list(one.reactants)), O.side_view(list(one.products))
+        if _check_cgr(co, lo, ro, 'one-sided', so, wo, out, expected_centre=set()) and _CGR_STR and any(t in str(co) for t in ('>', '[.', '.]')):
+            out.v(f'one-sided:{so}', f'one-sided reaction {so} has dynamic tokens in its CGR string {co}', witness=wo, native=str(co))
 
     # D/E/F: recorded edits
     u = reduce(or_, R) if len(R) > 1 else R[0].copy()
@@ -347,9 +509,25 @@ def _cgr_contracts(i, r, out):
         prods.pop(r.randrange(len(prods)))
         dropped = True
     r.shuffle(prods)
+    # audit: one side in Kekule form, the other aromatic -> dynamic aromatic bonds (4 <-> 1 / 2) in a whole condensed graph
+    kekulised = None
+    if r.random() < .25:
+        side = r.choice(('reactants', 'products'))
+        try:
+            ks = [m.copy() for m in (R if side == 'reactants' else prods)]
+            if any([m.kekule() for m in ks]):
+                kekulised = side
+                if side == 'reactants':
+                    R = ks
+                else:
+                    prods = ks
+        except Exception as e:
+            out.note(f'kekule-variant-skipped:{type(e).__name__}')
     rx = ReactionContainer(R, prods, G)
     s0 = str(rx)
-    wit = {**_witness(rx), 'edits': [(kd, list(at), arg) for kd, at, arg in edits], 'fragment_dropped': dropped}
+    wit = {**_witness(rx), 'edits': [(kd, list(at), arg) for kd, at, arg in edits], 'fragment_dropped': dropped, 'kekulised_side': kekulised}
+    if kekulised:
+        out.keys.append(('cgr-kekule-vs-aromatic', s0))
     touched = set()
     for kd, at, arg in edits:
         touched.update(at)
@@ -362,7 +540,7 @@ def _cgr_contracts(i, r, out):
     out.keys.append(('cgr', s0))
     if all(x.get('contract') != 'centre = recorded edits' for x in out.samples):
         out.samples.append({'contract': 'centre = recorded edits', 'reaction': s0, 'edits': wit['edits'], 'center_atoms': sorted(cgr.center_atoms)})
-    ok = _check_cgr(cgr, left, right, 'cgr', s0, wit, out, expected_centre=None if dropped else touched)
+    ok = _check_cgr(cgr, left, right, 'cgr', s0, wit, out, expected_centre=None if dropped or kekulised else touched)
     # molecule-level operator on the two unions
     lu = reduce(or_, list(G) + list(R)) if len(G) + len(R) > 1 else R[0]
     ru = reduce(or_, prods) if len(prods) > 1 else prods[0]
@@ -373,6 +551,8 @@ def _cgr_contracts(i, r, out):
         out.v(f'xor-vs-invert:{s0}', f'(reactants ^ products) = {_s(x)} but ~r = {_s(cgr)}', witness=wit, native={'xor': _s(x), 'invert': _s(cgr)})
     if not ok or not _CGR_STR:
         return
+    # F through the reader, audit: the m form carries the numbering, remap=True renumbers both sides consistently
+    _mapped_roundtrip(rx, s0, wit, out)
     # F: consistent renumbering of both sides + order inside roles
     s_cgr = str(cgr)
     nums = sorted(set().union(*(set(m) for m in rx.molecules())))
@@ -400,6 +580,44 @@ def _cgr_contracts(i, r, out):
             out.v(f'renumber:{s0}', f'str(~r) changes under a consistent renumbering of both sides: {s_cgr} vs {c2}',
                   witness={**wit, 'permutation': mp}, native={'original': s_cgr, 'renumbered': str(c2), 'reaction_renumbered': str(rx2)})
             break
+
+
+def _mapped_roundtrip(rx, s0, wit, out):
+    from chython import ReactionContainer, smiles
+    from bounded import domains as D
+    from oracles import o01_gaps
+    try:
+        Rn, Gn, Pn = ([D.norm(m.copy()) for m in role] for role in _roles(rx))
+    except Exception as e:
+        out.note(f'mapped-roundtrip-skipped:{type(e).__name__}')
+        return
+    if any(m.check_valence() for role in (Rn, Gn, Pn) for m in role):
+        out.note('mapped-roundtrip-skipped:invalid-valence-after-edit')   # SMILES cannot carry such atoms (the reader guesses radicals there)
+        return
+    rxn = ReactionContainer(Rn, Pn, Gn)
+    cn = ~rxn
+    sn, text = str(cn), format(rxn, 'm')
+    for kw in ({}, {'remap': True}):
+        tag = 'cgr-mapped-roundtrip' + ('' if not kw else f'[{",".join(f"{k}={v}" for k, v in kw.items())}]')
+        out.case(1, key=(tag, s0), sample={'contract': 'condensed graph after reading the m form back', 'reaction': text, 'options': kw})
+        w = {**wit, 'written': text, 'reader_options': kw}
+        try:
+            back = smiles(text, **kw)
+            for m in back.molecules():
+                D.norm(m)
+            back.flush_cache(keep_molecule_cache=True)
+            cb = ~back
+        except Exception as e:
+            key = 'roundtrip-m:atom-number>9999' if _big_numbers(rxn) else f'{tag}-raises:{s0}'
+            out.v(key, f'smiles({text!r}, {kw}) / its condensed graph raises {type(e).__name__}: {e}', witness=w, native=repr(e))
+            continue
+        same_centre = len(cb.center_atoms) == len(cn.center_atoms) if 'remap' in kw else set(cb.center_atoms) == set(cn.center_atoms)
+        if str(cb) != sn or not same_centre:
+            if same_centre and any(any(o01_gaps.gaps(m)) for m in rxn.molecules()):
+                out.gaps += 1
+                continue
+            out.v(f'{tag}:{s0}', f'the reaction read back from its m form {text!r} ({kw}) has another condensed graph: {cb} vs {sn}', witness=w,
+                  native={'original': sn, 'read_back': str(cb), 'centre': [sorted(cn.center_atoms), sorted(cb.center_atoms)]})
 
 
 def _reaction(i):
@@ -456,6 +674,34 @@ def _tokens(run):
             run.violation(f'tokens:atom:{c1}>{c2}:{r1}>{r2}', f'dynamic atoms {seen[s]} and {(c1, c2, r1, r2)} give the same CGR string {s}',
                           witness={'labels': [seen[s], (c1, c2, r1, r2)]}, native=s)
         seen[s] = (c1, c2, r1, r2)
+    # audit: isotope and element are part of the CGR atom token (kept by from_atom / from_atoms, shown by str)
+    from chython.periodictable import O as Ox
+    seen = {}
+    for el, iso, (c1, c2), (r1, r2), onesided in itertools.product((C, N, Ox), (None, 13, 14, 15, 17, 18), ((0, 0), (0, 1), (-1, 0), (1, 1)),
+                                                                   ((False, False), (False, True), (True, True)), (False, True)):
+        try:
+            x, y = el(iso), el(iso)
+        except Exception:
+            continue          # not an isotope of this element
+        if onesided and ((c1, r1) != (c2, r2)):
+            continue
+        a, b = MoleculeContainer(), MoleculeContainer()
+        x._charge, x._is_radical, y._charge, y._is_radical = c1, r1, c2, r2
+        a.add_atom(x, 1, _skip_calculation=True)
+        if not onesided:
+            b.add_atom(y, 1, _skip_calculation=True)
+        c = a ^ b
+        at = c._atoms[1]
+        lab = (el.__name__, iso, c1, c2, r1, r2)
+        run.case(1, key=('token-isotope',) + lab + (onesided,))
+        if (at.atomic_symbol, at.isotope, at.charge, at.p_charge, at.is_radical, at.p_is_radical) != lab:
+            run.violation(f'tokens:isotope:{lab}:{onesided}', f'{lab} composed (one-sided={onesided}) gives CGR atom '
+                          f'{(at.atomic_symbol, at.isotope, at.charge, at.p_charge, at.is_radical, at.p_is_radical)}', witness={'label': list(lab)})
+        if _CGR_STR:
+            sc = str(c)
+            if seen.setdefault(sc, lab) != lab:
+                run.violation(f'tokens:isotope:{lab}:{onesided}', f'CGR atoms {seen[sc]} and {lab} give the same CGR string {sc}',
+                              witness={'labels': [list(seen[sc]), list(lab)]}, native=sc)
     # the tables themselves: injective, dynamic tokens disjoint from the static ones
     for name in ('dyn_order_str', 'dyn_charge_str', 'dyn_radical_str'):
         t = getattr(S, name)
@@ -477,6 +723,15 @@ def bounded(run):
               f'radicals, small reagents, stereo labelled); 0-3 molecules per role incl. empty roles and duplicates; all orders inside roles '
               f'(<= 36 combinations) x 9 format specs; 1-3 recorded edits per mapped reaction out of 8 kinds; 3 consistent renumberings; '
               f'dynamic tokens: all 35 (order, p_order) pairs on C-C, all 324 (charge, p_charge, radical, p_radical) on N')
+    run.bound(f'audit extension, per seeded reaction: atom numbers start at one of 1, 7, 990, 1000, 4090, 9990; 30 % of the order / round-trip '
+              f'reactions have every molecule numbered from the same start (overlapping numbers); 11 format specs for the order contract; '
+              f'round trip of {len(RT_SPECS) + 1} written forms ("", {", ".join(RT_SPECS)}; !c on a seeded non-sorted order, compared as sequences) '
+              f'with default reader options + each of {len(RT_OPTS)} non-default reader options (ignore=False, remap=True, keep_implicit=True, '
+              f'ignore_aromatic_radicals=False, ignore_stereo=True) on one seeded written form; r.copy(); one one-sided reaction out of 4 shapes; '
+              f'edits incl. non-aromatic ring bonds, metal charge steps, 35 % of the edit sets may put a charge / radical edit on an atom of an '
+              f'edited bond; 25 % with one side kekulised; condensed graph of smiles(format(r, "m")) with default / remap=True (valence-valid sides only); '
+              f'{len(SPECIALS)} special molecules incl. isotopes, multiply charged metal ions, explicit H, N-oxide / nitro, azines; '
+              f'{len(TIES)} sort-key ties x 3 roles; isotope tokens: C/N/O x 6 isotope values x 4 charge pairs x 3 radical pairs x one-/two-sided')
     global _CGR_STR
     from chython import smiles
     probe = smiles('[CH3:1][CH2:2][OH:3]>>[CH3:1][CH:2]=[O:3]')
@@ -489,6 +744,7 @@ def bounded(run):
                       f'(and of every other reaction): the canonical CGR string of C15 does not exist; renumbering and token contracts skipped',
                       witness={'reaction': format(probe, 'm')}, native=repr(e))
     _tokens(run)
+    _ties(run)
     gaps, notes = 0, {}
     shown = {}
     for nc, keys, samples, viol, g, nt in pmap(_reaction, range(n), chunksize=4):
